@@ -112,6 +112,7 @@ class VLoop(asyncio.SelectorEventLoop):
         super().__init__()
         self.steps = 0
         self.after_handle = None
+        self.idle_hook = None
         self.set_task_factory(
             lambda loop, coro, **kw: asyncio.tasks._PyTask(coro, loop=loop, **kw)  # type: ignore[attr-defined]
         )
@@ -132,6 +133,8 @@ class VLoop(asyncio.SelectorEventLoop):
         while sched and sched[0]._cancelled:
             h = heapq.heappop(sched)
             h._scheduled = False
+        if not self._ready and self.idle_hook is not None:
+            self.idle_hook()          # e.g. the fake servers' scheduler releases one pending round trip
         if not self._ready and sched:
             when_us = int(round(sched[0]._when * 1e6))
             if when_us > CLOCK.us:
